@@ -522,6 +522,10 @@ func EncodeDatapoint(mName []byte, tags *TagsHolder, dp float64, timestamp uint3
 		log.Errorf("EncodeDatapoint: rejecting datapoint for metric=%s, orgid=%v, err=%v", mName, orgid, err)
 		return err
 	}
+	if err := tags.checkTagValues(); err != nil {
+		log.Errorf("EncodeDatapoint: rejecting datapoint for metric=%s, orgid=%v, err=%v", mName, orgid, err)
+		return err
+	}
 	tsid, err := tags.GetTSID(mName)
 	if err != nil {
 		log.Errorf("EncodeDatapoint: failed to get TSID for metric=%s, orgid=%v, err=%v", mName, orgid, err)
